@@ -9,6 +9,9 @@ pub mod sess;
 use ctx::{Ctx, Tier};
 
 pub static LAST_PANIC: std::sync::Mutex<String> = std::sync::Mutex::new(String::new());
+/// panic message -> source file of the panic (set by the panic hook); lets the top level tell a panic of the
+/// subject that escaped through a call the harness did not guard from a panic of the harness itself
+pub static PANIC_FILES: std::sync::Mutex<Vec<(String, String)>> = std::sync::Mutex::new(Vec::new());
 thread_local! {
     /// source file of the most recent panic on this thread (set by the panic hook)
     pub static THREAD_PANIC_FILE: std::cell::RefCell<String> = const { std::cell::RefCell::new(String::new()) };
@@ -22,7 +25,22 @@ fn main() {
             if let Ok(mut g) = LAST_PANIC.lock() {
                 *g = format!("{info}");
             }
+            if std::env::var_os("VERIF_BT").is_some() {
+                eprintln!("PANIC {info}\n{}", std::backtrace::Backtrace::force_capture());
+            }
             let loc = info.location().map(|l| l.file().to_string()).unwrap_or_default();
+            let msg = if let Some(m) = info.payload().downcast_ref::<&str>() {
+                (*m).to_string()
+            } else if let Some(m) = info.payload().downcast_ref::<String>() {
+                m.clone()
+            } else {
+                String::new()
+            };
+            if let Ok(mut g) = PANIC_FILES.lock() {
+                if !g.iter().any(|(m, f)| *m == msg && *f == loc) && g.len() < 4096 {
+                    g.push((msg, loc.clone()));
+                }
+            }
             THREAD_PANIC_FILE.with(|c| *c.borrow_mut() = loc);
         }));
     }
@@ -62,8 +80,27 @@ fn main() {
     }
     let code = match std::panic::catch_unwind(|| props::run(&id, tier)) {
         Ok(c) => c,
-        Err(_) => {
-            // a panic of the harness itself (not of the subject, which is caught at the call boundary)
+        Err(p) => {
+            // a panic that escaped: of the harness itself, or of the subject through a call the harness
+            // makes without a guard because it is routine (an honest step that prepares a state). The second
+            // is the library failing a call the property relies on, not a fault of the machinery.
+            let msg = if let Some(m) = p.downcast_ref::<&str>() {
+                (*m).to_string()
+            } else if let Some(m) = p.downcast_ref::<String>() {
+                m.clone()
+            } else {
+                String::new()
+            };
+            let files: Vec<String> = PANIC_FILES.lock().map(|g| g.iter().filter(|(m, _)| *m == msg).map(|(_, f)| f.clone()).collect()).unwrap_or_default();
+            let in_subject = |f: &String| f.contains("/src/") && !f.contains("/harness") && !f.contains(".cargo") && !f.contains("/rustc/") && !f.contains("/rustlib/");
+            if !files.is_empty() && files.iter().all(in_subject) {
+                let file = files[0].rsplit("/repo/").next().unwrap_or(&files[0]).to_string();
+                let short: String = msg.chars().take(90).collect();
+                let ctx = Ctx::new(&id, tier, "model_checking");
+                ctx.set_rule("the exploration stopped at a panic inside snow, raised by a routine call (an honest step preparing a state) that every property presupposes to return");
+                ctx.violation(format!("a routine call into snow panicked ({file}: {short})"), msg.clone(), serde_json::json!({"kind": "uncaught-panic", "file": file, "message": msg}));
+                std::process::exit(ctx.finish());
+            }
             eprintln!("MACHINERY-ERROR: the explorer panicked: {}", LAST_PANIC.lock().map(|g| g.clone()).unwrap_or_default());
             2
         },
